@@ -50,9 +50,13 @@ def parsedExpr : PExpr → Bool
   | .pre .minus e => parsedExpr e
   | _ => true
 
+/-- a qubit the parser returns AND whose printed form reads back: no placeholder, and a variable whose name
+is not a reserved word (`%NOT` is accepted as a qubit variable but printed `NOT`: known finding
+C02/qubit-variable-named-like-keyword) -/
 def noPlaceholder : Qubit → Bool
   | .placeholder _ => false
-  | _ => true
+  | .variable s => !isReservedWord s.toList
+  | .fixed _ => true
 
 def fixedTarget : Target → Bool
   | .fixed _ => true
@@ -125,7 +129,8 @@ def parsedInstr : Instruction → Bool
     id.parameters.all parsedExpr && id.qubits.all noPlaceholder && !body.isEmpty && parsedInstrs body
   | .call c => c.arguments.all callArgOk
   | .capture c => frameOk c.frame && invocationOk c.waveform
-  | .circuitDefinition _ _ _ body => !body.isEmpty && parsedInstrs body
+  | .circuitDefinition _ _ qvs body =>
+    qvs.all (fun s => !isReservedWord s.toList) && !body.isEmpty && parsedInstrs body
   | .comparison c => compOperandOk c.rhs
   | .delay d => parsedExpr d.duration && d.qubits.all noPlaceholder
   | .fence f => f.qubits.all noPlaceholder
@@ -159,6 +164,42 @@ def parsedInstrs : List Instruction → Bool
   | i :: rest => parsedInstr i && parsedInstrs rest
 end
 
+/-! ## the NumTok hypothesis, for every numeric leaf of an instruction -/
+
+def numTokSpec (F : NumFmt) : GateSpecification → Bool
+  | .matrix rows => rows.all fun r => r.all (numTokOk F)
+  | .permutation _ => true
+  | .pauliSum s => s.terms.all fun t => numTokOk F t.expression
+  | .sequence s => s.gates.all fun g => g.parameters.all (numTokOk F)
+
+mutual
+/-- every expression leaf (and every CALL immediate) of the instruction satisfies the NumTok hypothesis of
+`QV.ExprPrint`: the token written for the magnitude of a literal denotes that magnitude bit for bit -/
+def numTokInstr (F : NumFmt) : Instruction → Bool
+  | .calibrationDefinition id body => id.parameters.all (numTokOk F) && numTokInstrs F body
+  | .call c => c.arguments.all fun a => match a with | .immediate z => numTokOkAt F z | _ => true
+  | .capture c => c.waveform.parameters.all fun kv => numTokOk F kv.2
+  | .circuitDefinition _ _ _ body => numTokInstrs F body
+  | .delay d => numTokOk F d.duration
+  | .frameDefinition f =>
+    f.attributes.all fun kv => match kv.2 with | .expression e => numTokOk F e | .string _ => true
+  | .gate g => g.parameters.all (numTokOk F)
+  | .gateDefinition g => numTokSpec F g.specification
+  | .measureCalibrationDefinition _ body => numTokInstrs F body
+  | .pulse p => p.waveform.parameters.all fun kv => numTokOk F kv.2
+  | .rawCapture r => numTokOk F r.duration
+  | .setFrequency s => numTokOk F s.frequency
+  | .setPhase s => numTokOk F s.phase
+  | .setScale s => numTokOk F s.scale
+  | .shiftFrequency s => numTokOk F s.frequency
+  | .shiftPhase s => numTokOk F s.phase
+  | .waveformDefinition w => w.definition.matrix.all (numTokOk F)
+  | _ => true
+def numTokInstrs (F : NumFmt) : List Instruction → Bool
+  | [] => true
+  | i :: rest => numTokInstr F i && numTokInstrs F rest
+end
+
 /-! ## canonical form modulo `==` -/
 
 def canonInvocation (w : WaveformInvocation) : WaveformInvocation := { w with parameters := sortKV w.parameters }
@@ -184,6 +225,8 @@ def provedKind : Instruction → Bool
   | .arithmetic _ | .binaryLogic _ | .comparison _ | .convert _ | .exchange _ | .move _ | .load _
   | .store _ | .unaryLogic _ | .halt | .nop | .wait | .jump _ | .jumpWhen _ | .jumpUnless _ | .label _
   | .include _ | .declaration _ | .fence _ | .reset _ | .measurement _ | .pragma _ => true
+  | .gate _ | .setFrequency _ | .setPhase _ | .setScale _ | .shiftFrequency _ | .shiftPhase _
+  | .swapPhases _ => true
   | _ => false
 
 end QV.C02
